@@ -132,6 +132,11 @@ func judgeObserver(r *rep.Reporter, c *rep.Case, where string) {
 		if o.Code/100 == o.Enh[0] && (o.Enh[0] == 4 || o.Enh[0] == 5) {
 			continue
 		}
+		if wasInjected(o.Code, o.Enh, o.Msg) {
+			// built by the harness (an annotation with a basic code only), not by maddy
+			r.Count("observer_injected_basic_code_only", int64(o.Count))
+			continue
+		}
 		src := "check=" + o.Check + "/target=" + o.Target
 		c.Violation(fmt.Sprintf("observer/class-mismatch/%d/%d.%d.%d/%s/%s", o.Code, o.Enh[0], o.Enh[1], o.Enh[2], src, slug(o.Msg)),
 			fmt.Sprintf("an SMTPError with code %d and enhanced code %d.%d.%d (%q) was converted for reporting (%s workload)", o.Code, o.Enh[0], o.Enh[1], o.Enh[2], o.Msg, where), o)
